@@ -290,7 +290,12 @@ class Writer:
 
     def _store(self, env, name, value_node, mod):
         v = self.expr(value_node, env, mod)
-        if v is not None and not (len(v) == 1 and v[0][0] == 'RAW' and not isinstance(value_node, (ast.Call, ast.BinOp))):
+        # n = n + f(x) with n a number so far (not a byte sequence) is arithmetic, whatever the right operand looks like
+        arith = isinstance(value_node, ast.BinOp) and any(isinstance(o, ast.Name) and isinstance(env.get(o.id), ast.AST) and not isinstance(env.get(o.id), Seq)
+                                                          and isinstance(env.get(o.id), (ast.Constant, ast.BinOp, ast.Call)) and not (
+                                                              isinstance(env.get(o.id), ast.Constant) and isinstance(env.get(o.id).value, (bytes, str)))
+                                                          for o in (value_node.left, value_node.right))
+        if v is not None and not arith and not (len(v) == 1 and v[0][0] == 'RAW' and not isinstance(value_node, (ast.Call, ast.BinOp))):
             env[name] = v
         else:
             try:
